@@ -58,14 +58,12 @@ def helperResult (s : St) (e : TSInputEdit) : String × String := Id.run do
       if g.start_byte != natOf nsb || g.end_byte != natOf neb || g.start_point.row != natOf nsr ||
          g.start_point.column != natOf nsc || g.end_point.row != natOf ner || g.end_point.column != natOf nec then
         corr := s!"DIFF helper hr on [{sb},{eb}): impl [{nsb},{neb}) generated [{g.start_byte},{g.end_byte})"
-      if natOf sb ≥ e.old_end_byte then
-        let es := e.new_end_byte + (natOf sb - e.old_end_byte)
-        let ee := e.new_end_byte + (natOf eb - e.old_end_byte)
+      -- judged against `range_edit_sat` (Props.lean): every 32-bit range, incl. open ends and overflow
+      if natOf sb < 4294967296 && natOf eb < 4294967296 && e.new_end_byte < 4294967296 then
+        let es := movedStartSat (natOf sb) e
+        let ee := movedEndSat (natOf eb) e
         if natOf nsb != es || natOf neb != ee then
-          judge := s!"FAIL helper hr: range [{sb},{eb}) after the change should move to [{es},{ee}), got [{nsb},{neb})"
-      else if natOf eb < e.start_byte || (natOf eb == e.start_byte && e.old_end_byte > e.start_byte) then
-        if nsb != sb || neb != eb then
-          judge := s!"FAIL helper hr: range [{sb},{eb}) before the change moved to [{nsb},{neb})"
+          judge := s!"FAIL helper hr: range [{sb},{eb}) should move to [{es},{ee}) (range_edit_sat), got [{nsb},{neb})"
     | _ => pure ()
   return (corr, judge)
 
